@@ -517,7 +517,7 @@ def s5(chk: Check, proj: Project) -> None:
 
 
 MANIFEST = {
-    "text": "Decides the frame discipline of parse_template's two-lexer hand-over: which variable is the segment origin and that every relexed token is shifted by it; that the line offset is assigned from an absolute line plus a newline count measured on raw text over exactly [fixed token start, next origin]; contiguity of segments; the exact hand-over condition (so quote-free sources get the stock token stream); and which characters the quote-aware scanner may skip (a `%` is never skipped outside strings; escapes are pairs). Also: every token is shifted before the hand-over decision and the scanner keeps every consumed character; the lexer's verbatim state is defined per hand-over round and carried across it; Template is patched before ready() imports user modules and compile_nodelist is installed unconditionally. Round 4: no token of the stock lexer is skipped; no escape processing outside quoted strings. Round 5: the token type / verbatim decision is Django's own (shape compared with the installed Lexer.create_token). Round 6: the language of the string-body pattern contains every escaped pair (backslash + any character, newline included) and every non-quote character.",
+    "text": "Decides the frame discipline of parse_template's two-lexer hand-over: which variable is the segment origin and that every relexed token is shifted by it; that the line offset is assigned from an absolute line plus a newline count measured on raw text over exactly [fixed token start, next origin]; contiguity of segments; the exact hand-over condition (so quote-free sources get the stock token stream); and which characters the quote-aware scanner may skip (a `%` is never skipped outside strings; escapes are pairs). Also: every token is shifted before the hand-over decision and the scanner keeps every consumed character; the lexer's verbatim state is defined per hand-over round and carried across it; Template is patched before ready() imports user modules and compile_nodelist is installed unconditionally. Round 4: no token of the stock lexer is skipped; no escape processing outside quoted strings. Round 5: the token type / verbatim decision is Django's own (shape compared with the installed Lexer.create_token). Round 6: the language of the string-body pattern contains every escaped pair (backslash + any character, newline included) and every non-quote character. Round 7: bounds freshness of the quote-aware scanner's reads (shared with C12-S2b).",
     "note": "Trusted: DebugLexer reports positions/lines relative to the slice it is given. Not decided: contents vs span equality; handling of unterminated constructs.",
     "technique": "static frame/coordinate-role checks via def-use, condition-atom comparison, regex parse-tree shape",
 }
